@@ -435,6 +435,96 @@ Proof.
   all: intros; destruct (Hn n H) as (a & b & c); destruct (c (ExecSpec.nworkers_pos nt n Hwk H)) as (d & e & f); auto.
 Qed.
 
+(* ------------------------------------------------------------------ the extra hypotheses are needed *)
+(* [good_net] alone does not give deadlock freedom.  In each of the three tables below (all [good_net]) a
+   state with the source stopped is reachable from which NO finishing action is enabled although Execute
+   has not returned: only the shutdown timeout ends the run. *)
+Definition no_clean_end (nt : net) (T : nat) (s : state) : Prop :=
+  ~ exists sch s', forallb finishing sch = true /\ run nt T s sch = Ok s' /\ mn s' = MDone /\ timedout s' = false.
+
+Lemma stuck_no_clean_end : forall nt T s, mn s <> MDone ->
+  (forall a, finishing a = true -> step nt T s a = NotEnabled) -> no_clean_end nt T s.
+Proof.
+  intros nt T s Hm Hst (sch & s' & Hf & Hrun & Hd & _).
+  destruct sch as [|a sch]; cbn [run forallb] in *.
+  - injection Hrun as <-. contradiction.
+  - apply andb_true_iff in Hf. destruct Hf as [Ha _]. rewrite (Hst a Ha) in Hrun. discriminate.
+Qed.
+
+Definition cx_node (cap : nat) (kids : list nat) (r : role) : ninfo :=
+  {| nid := 0; nkind := KSync; nworkers := 1; ncap := cap; ndisc := false; nkids := kids; nhandler := None; nrole := r |}.
+Definition state_after (nt : net) (sch : list action) : state :=
+  match run nt 0 (init nt) sch with Ok s => s | _ => init nt end.
+
+(* (1) [fed] is needed: a node that is neither a root nor anybody's child / handler is never closed *)
+Definition cx_fed_net : net := [cx_node 1 [] RChild].
+Definition cx_fed_state : state :=
+  Eval vm_compute in state_after cx_fed_net [SrcReturnNil; MainSeeClosed; MainCloseRoots].
+
+Theorem fed_needed : forall T,
+  ExecProps.good_net cx_fed_net /\ topo cx_fed_net /\ buffered cx_fed_net
+  /\ reachable cx_fed_net T cx_fed_state /\ src cx_fed_state = SClosed /\ timedout cx_fed_state = false
+  /\ no_clean_end cx_fed_net T cx_fed_state.
+Proof.
+  intros T. split; [split; reflexivity|]. split; [apply topo_b_ok; reflexivity|].
+  split; [apply buffered_b_ok; reflexivity|].
+  split; [exists [SrcReturnNil; MainSeeClosed; MainCloseRoots]; reflexivity|].
+  split; [reflexivity|]. split; [reflexivity|].
+  apply stuck_no_clean_end; [discriminate|].
+  intros a Hf. destruct a; try discriminate Hf; try reflexivity;
+    try (destruct o as [[|e es]| |]; try discriminate Hf);
+    try (destruct n as [|[|n]]; try reflexivity; destruct w as [|[|w]]; reflexivity).
+  destruct i; reflexivity.
+Qed.
+
+(* (2) acyclicity ([topo]) is needed on top of [fed]: two nodes feeding each other are well-formed and fed,
+   but hang from no root *)
+Definition cx_cyc_net : net := [cx_node 1 [1] RChild; cx_node 1 [0] RChild].
+Definition cx_cyc_state : state :=
+  Eval vm_compute in state_after cx_cyc_net [SrcReturnNil; MainSeeClosed; MainCloseRoots].
+
+Theorem topo_needed : forall T,
+  ExecProps.good_net cx_cyc_net /\ fed cx_cyc_net /\ buffered cx_cyc_net
+  /\ reachable cx_cyc_net T cx_cyc_state /\ src cx_cyc_state = SClosed /\ timedout cx_cyc_state = false
+  /\ no_clean_end cx_cyc_net T cx_cyc_state.
+Proof.
+  intros T. split; [split; reflexivity|]. split; [apply fed_b_ok; reflexivity|].
+  split; [apply buffered_b_ok; reflexivity|].
+  split; [exists [SrcReturnNil; MainSeeClosed; MainCloseRoots]; reflexivity|].
+  split; [reflexivity|]. split; [reflexivity|].
+  apply stuck_no_clean_end; [discriminate|].
+  intros a Hf. destruct a; try discriminate Hf; try reflexivity;
+    try (destruct o as [[|e es]| |]; try discriminate Hf);
+    try (destruct n as [|[|[|n]]]; try reflexivity; destruct w as [|[|w]]; reflexivity).
+  destruct i; reflexivity.
+Qed.
+
+(* (3) [buffered] is needed: the model has no rendezvous, so a capacity-0 channel that does not discard
+   never accepts anything; main stays blocked in the delivery to the root (config validation enforces
+   buffersize >= 1, so this is a limit of the model's domain, not a defect of the executor) *)
+Definition cx_cap_net : net := [cx_node 0 [] RRoot].
+Definition cx_cap_state : state :=
+  Eval vm_compute in state_after cx_cap_net [SrcEmit 7%Z; SrcReturnNil].
+
+Theorem buffered_needed : forall T,
+  ExecProps.good_net cx_cap_net /\ topo cx_cap_net /\ fed cx_cap_net
+  /\ reachable cx_cap_net T cx_cap_state /\ src cx_cap_state = SClosed /\ timedout cx_cap_state = false
+  /\ no_clean_end cx_cap_net T cx_cap_state.
+Proof.
+  intros T. split; [split; reflexivity|]. split; [apply topo_b_ok; reflexivity|].
+  split; [apply fed_b_ok; reflexivity|].
+  split; [exists [SrcEmit 7%Z; SrcReturnNil]; reflexivity|].
+  split; [reflexivity|]. split; [reflexivity|].
+  apply stuck_no_clean_end; [discriminate|].
+  intros a Hf. destruct a; try discriminate Hf; try reflexivity;
+    try (destruct o as [[|e es]| |]; try discriminate Hf);
+    try (destruct n as [|[|n]]; try reflexivity; destruct w as [|[|w]]; reflexivity).
+  destruct i; reflexivity.
+Qed.
+
 Print Assumptions progress.
 Print Assumptions can_always_finish.
 Print Assumptions can_always_drain.
+Print Assumptions fed_needed.
+Print Assumptions topo_needed.
+Print Assumptions buffered_needed.
